@@ -153,7 +153,45 @@ pub fn generate(rng: &mut Rng, max_ops: usize) -> Workload {
             }
             break;
         }
-        match rng.below(19) {
+        match rng.below(21) {
+            19 if len < 50 => {
+                // grow across several capacity boundaries in one go
+                let n = rng.range(5, 20) as i64;
+                match kind {
+                    Kind::Int => {
+                        src.push_str(&format!("for q in {n} {{\n    a.push(q * 3)\n}}\n"));
+                        for q in 0..n {
+                            a.push(Elem::Int(q * 3));
+                        }
+                    }
+                    Kind::Str => {
+                        src.push_str(&format!("for q in {n} {{\n    a.push(\"g\" .. q)\n}}\n"));
+                        for q in 0..n {
+                            a.push(Elem::Str(format!("g{q}")));
+                        }
+                    }
+                    Kind::Nested => {
+                        src.push_str(&format!("for q in {n} {{\n    a.push([q, 1])\n}}\n"));
+                        for q in 0..n {
+                            a.push(Elem::Nested(vec![q, 1]));
+                        }
+                    }
+                }
+                descr.push(format!("push-many({n})"));
+            }
+            20 if len > 8 => {
+                // shrink by popping most of it, observing each popped element
+                let n = len - rng.below(4) as usize;
+                src.push_str(&format!("var popped{tag} = \"\"\nfor q in {n} {{\n    popped{tag} = popped{tag} .. show_e(a.pop()) .. \";\"\n}}\nobs({tag}, popped{tag})\n"));
+                let mut want = String::new();
+                for _ in 0..n {
+                    want.push_str(&a.pop().unwrap().show());
+                    want.push(';');
+                }
+                obs.push((tag, want));
+                tag += 1;
+                descr.push(format!("pop-many({n})"));
+            }
             16 | 17 if b.as_ref().is_some_and(|bb| !bb.is_empty()) => {
                 // move an element out of `b` into `a` (the element changes container)
                 let bb = b.as_mut().unwrap();
